@@ -142,3 +142,40 @@ def fault_grid(rng):
                 lines = ["$a", "edit", "."] + setup + [cmd, "q", "q!"]
                 out.append(case([("fa", fa), ("fb", "other\n" if rng.below(2) else None)], ["fa"], lines))
     return out
+
+SUB_PATS = ["a", "^a", "a$", "^", "$", "x*", "a*", "o", "(o)(o)", "(a)|(b)", "[ab]+", "é", "é*", ".", "\\<f", "o\\>", "^a*", "b*$", "(f)(o*)", "a|aa", "(a*)(b*)", "日", "  *", "\\.", "\\/"]
+SUB_REPS = ["X", "", "-", "[\\0]", "\\1", "\\2\\1", "<\\1|\\2>", "\\\\", "é", "\\n", "&", "\\9", "x\\0y\\0"]
+SUB_LINES = ["aaa", "ééa", "foo bar", "abab", "", "a", "baac", "日本語", "  x  y", "a.b/c", "foo", "aXa", "oo", "fooo foo"]
+
+def c14_cases(rng, count):
+    out = []
+    for _ in range(count):
+        n = 1 + rng.below(5)
+        content = "\n".join(rng.choice(SUB_LINES) for _ in range(n)) + "\n"
+        lines = []
+        for _ in range(1 + rng.below(4)):
+            d = rng.choice(["/", "/", "/", ",", "#"])
+            pat = rng.choice(SUB_PATS) if rng.below(8) else ""
+            if d != "/": pat = pat.replace("\\/", "q")
+            rg = rng.choice(["", "%", "1", "$", "1,2", ".,$", "2", "1,$"])
+            lines.append("%ss%s%s%s%s%s%s" % (rg, d, pat, d, rng.choice(SUB_REPS), d, rng.choice(["", "g", "g"])))
+            if rng.below(4) == 0: lines.append("u")
+        lines += ["%p", "q!"]
+        out.append(case([("fa", content)], ["fa"], lines))
+    return out
+
+GLOB_PATS = ["m", "a", "^$", "o", "x", "1", "."]
+GLOB_CMDS = ["d", "s/m/M/", "s/o/0/g", "pu a", "a\\", "-1d", "+1d", "-2,-1d|+1", "d|d", ".,+1d", "+1,+2d", "k a", "p", "s/$/!/", "-1,.d", "1d", "$d", "pu a|-1d", "g/o/d", "g/1/s/m/W/", "v/m/d", "y a|pu a", "+1s/./Q/", "+1d|-1"]
+
+def c15_cases(rng, count):
+    out = []
+    for _ in range(count):
+        n = 3 + rng.below(6)
+        pool = ["m%d" % i for i in range(1, 8)] + ["a", "b", "z", "oo", "mo", "x1", "o1"]
+        content = "\n".join(rng.choice(pool) + str(i) for i in range(n)) + "\n"
+        lines = ["1,2y a"] if rng.below(2) else ["rs a", "Ins", "."]
+        rg = rng.choice(["", "", "%", "2,$", "1,3", "2,4", ".,$"])
+        lines.append("%s%s/%s/%s" % (rg, rng.choice(["g", "g", "v", "g!"]), rng.choice(GLOB_PATS), rng.choice(GLOB_CMDS)))
+        lines += ["%p", "u", "%p", "q!"]
+        out.append(case([("fa", content)], ["fa"], lines))
+    return out
